@@ -16,6 +16,10 @@ CHECKS = {
    text="TLC explores the decoder step machine of spec/EslCodec.tla over every (stream, filler, cut) case of the near-miss space (field relations of ListSize/HeaderSize/SignatureSize, unsupported types, truncation points, trailing bytes, good neighbours), checks AcceptSound and NoSilentTruncation as invariants and emits the three-valued expectation of each case; every case is concretised and decoded by the real code, which must reject what the specification rejects and decode faithfully what it accepts. Byte-level mutations of real fixtures are projected back to abstract cases and judged by TLC.",
    note="Trusted: TLC, harness concretiser + independent reader (cross-checked against each other per case). MAY zone: hdrsize != 0, zero-count lists, externally-managed size != 17. Quick: boundary cut points (~117k cases); thorough: every cut point (~2.3M cases).",
    technique="TLA+ decoder spec model-checked with TLC; TLC-enumerated cases with expectations executed on the code; observations judged by TLC"),
+ "C12": dict(level="model_checking", ref="5/C12",
+   text="spec/EfiVarFs.tla models the variable store at API and file-system grain; TLC checks the Register / ReadsLastWrite invariants under replace-on-write semantics (and, as a vacuity guard, that they fail under plain-overwrite semantics). Every API-grain history TLC generates (plain and signed writes of growing, shrinking, empty and prefix-related values, reads; exhaustive to depth 2 quick / 3 thorough, -simulate and seeded random histories beyond, a third on pre-populated stores) runs on the real testfs store; the recorded events are validated by TLC against spec/EfiVarFsTrace.tla (a read returns the identity of the last completed write).",
+   note="Trusted: TLC, identification of read-back bytes by comparison with the concretised values and the harness's independent descriptor reader. Bounded universe: 3 variables (6 in random histories), 5 values.",
+   technique="TLA+ register spec model-checked with TLC; TLC-generated histories replayed on the in-memory store; TLC trace validation"),
  "C09": dict(level="model_checking", ref="5/C09",
    text="TLC model-checks spec/SigDb.tla (WellFormed invariant, OthersKept/ErrorsChangeNothing/AppendAddsOne/RemoveDropsOne action properties) over a bounded universe; every operation history TLC generates (exhaustive to depth 2 quick / 3 thorough, -simulate and seeded random histories beyond) is replayed on the real SignatureDatabase and the recorded events (result class + independent projection of Bytes()) are validated by TLC against spec/SigDbTrace.tla, which evaluates the list equations after every step.",
    note="Trusted: TLC, the independent ESL reader in harness/cmd/worker/eslproj.go, type-disjoint data universes. Exhaustive only within the bounded universe (2 owners, 10 data values, 4 types) and depth; deeper histories are sampled.",
